@@ -91,14 +91,25 @@ class Classes:
             cls = flatland.Dict.of(*subs)
         elif k == "sparse":
             cls = flatland.SparseDict.of(*subs)
+        elif k == "schema":
+            # declarative form: class F(Schema): a = String; b = Integer ...
+            cls = type(flatland.Schema)("F", (flatland.Schema,), {s["name"]: c for s, c in zip(sj["subs"], subs)})
+            for f in cls.field_schema:
+                for s2 in sj["subs"]:
+                    if s2["name"] == f.name:
+                        self.register(s2["cid"], f, s2["k"])
+        elif k == "date":
+            cls = flatland.DateYYYYMMDD
         else:
             raise ValueError(k)
         cls = cls.named(sj["name"])
         over = {"optional": bool(sj["opt"])}
         if sj["default"] is not None:
             over["default"] = py(sj["default"])
-        if k in MAP_KINDS:
+        if k in MAP_KINDS or k == "schema":
             over["policy"] = None if sj["policy"] == "none" else sj["policy"]
+        if k == "date":
+            over = {"optional": bool(sj["opt"])}
         if k == "sparse":
             over["minimum_fields"] = "required" if sj["minreq"] else None
         cls = cls.using(**over)
@@ -111,6 +122,8 @@ def kind_of_element(el):
     from flatland.schema.containers import ListSlot
     if isinstance(el, ListSlot):
         return "slot"
+    if isinstance(el, flatland.DateYYYYMMDD):
+        return "date"
     if isinstance(el, flatland.SparseDict):
         return "sparse"
     if isinstance(el, flatland.Dict):
@@ -163,6 +176,7 @@ class Exec:
         self.root = None
         self.nav_errors = []
         self.foreign_owner = {}
+        self.memo = {}
 
     # -- identity labels
     def see(self, obj):
@@ -249,11 +263,20 @@ class Exec:
             if need is None:
                 raise Skip("noschema")
             cls = need
-            if a.get("rename") is not None:
-                cls = need.named(a["rename"])
+            if a.get("rename") is not None or a.get("sub_optional") is not None:
+                # an Element of a SUBCLASS of the needed class: renamed and/or with its own `optional`
+                if a.get("rename") is not None:
+                    cls = cls.named(a["rename"])
+                if a.get("sub_optional") is not None:
+                    cls = cls.using(optional=bool(a["sub_optional"]))
                 self.classes.register(a["cid"], cls, self.classes.kind_of.get(need))
+            kw = {}
+            if a.get("inst_optional") is not None:
+                kw["optional"] = bool(a["inst_optional"])      # instance-level override, type(el) stays `cls`
+            if a.get("inst_name") is not None:
+                kw["name"] = a["inst_name"]
             try:
-                el = cls() if a.get("blank") else cls(py(a["new"]))
+                el = cls(**kw) if a.get("blank") else cls(py(a["new"]), **kw)
             except Exception as e:  # the constructor raised: no element to hand over
                 raise Skip("argerr:" + exc_name(e))
             if a.get("foreign"):
@@ -307,6 +330,12 @@ class Exec:
                 target.remove(vals[0]); return "ok"
             if name == "reverse":
                 target.reverse(); return "ok"
+            if name == "clear":
+                target.clear(); return "ok"
+            if name == "imul":
+                operator.imul(target, op["n"]); return "ok"
+            if name == "set_flat":
+                target.set_flat([(k, v) for k, v in op["pairs"]]); return "ok"
             if name == "sort":
                 kw = {}
                 if op.get("key") == "u":
@@ -372,6 +401,8 @@ class Exec:
                 return ("b", target.set(py(op["v"])))
             if name == "set_default":
                 target.set_default(); return "ok"
+            if name == "set_flat":
+                target.set_flat([(k, v) for k, v in op["pairs"]]); return "ok"
             if name == "contains":
                 return ("b", op["k"] in target)
             if name == "len":
@@ -504,6 +535,7 @@ class Exec:
         before = self.reach()
         info["before"] = before
         info["before_children"] = self.children(target)
+        info["before_items"] = dict(dict.items(target)) if is_map(target) else None
         try:
             r = self.call(target, kind, op, args)
             info["ret"] = r
@@ -646,12 +678,50 @@ def gen_slice(rng):
 
 SEQ_OPS = ["append", "append", "extend", "iadd", "insert", "insert", "setitem", "setitem", "setslice", "setslice",
            "delitem", "delslice", "pop", "pop", "remove", "reverse", "sort", "set", "set_default",
-           "len", "getitem", "getslice", "contains", "index", "count"]
+           "len", "getitem", "getslice", "contains", "index", "count", "clear", "imul", "imul"]
 
 
-def gen_seq_op(rng, member, valid=True):
-    name = rng.choice(SEQ_OPS)
+def flat_keys(rng, s, prefix="", sep="_"):
+    """flat keys addressing leaves of schema `s` (one random index per list level)"""
+    name = s["name"]
+    k = s["k"]
+    if k in ("integer", "string"):
+        yield (prefix + name) if name else prefix.rstrip(sep)
+    elif k in ("dict", "sparse", "schema", "date"):
+        p2 = (prefix + name + sep) if name else prefix
+        for f in s["subs"]:
+            yield from flat_keys(rng, f, p2, sep)
+    elif k == "list":
+        p2 = (prefix + name + sep) if name else prefix
+        for idx in rng.sample([0, 1, 2, 3, 5], rng.randint(1, 3)):
+            yield from flat_keys(rng, s["subs"][0], p2 + str(idx) + sep, sep)
+    else:  # array / multi
+        m = s["subs"][0]
+        base = (prefix + name) if name else prefix.rstrip(sep)
+        if m["name"]:
+            base = (base + sep + m["name"]) if base else m["name"]
+        for _ in range(rng.randint(1, 3)):
+            yield base
+
+
+def gen_flat_pairs(rng, s):
+    keys = list(flat_keys(rng, s))
+    rng.shuffle(keys)
+    keys = keys[:rng.randint(0, 6)]
+    pairs = [[k, rng.choice(STR_POOL)] for k in keys]
+    for _ in range(rng.choice([0, 0, 1, 2])):      # junk keys
+        pairs.insert(rng.randint(0, len(pairs)), [rng.choice(["", "zz", "0", "a_", "l_x", (s["name"] or "q") + "_9_"]),
+                                                  rng.choice(STR_POOL)])
+    return pairs
+
+
+def gen_seq_op(rng, member, valid=True, seq=None):
+    name = rng.choice(SEQ_OPS + (["set_flat", "set_flat"] if seq is not None else []))
     op = {"op": name}
+    if name == "imul":
+        op["n"] = rng.choice([-1, 0, 1, 2, 2, 3])
+    elif name == "set_flat":
+        op["pairs"] = gen_flat_pairs(rng, seq)
     if name in ("append", "remove", "contains", "index", "count"):
         op["a"] = gen_arg(rng, member, valid=valid) if name == "append" else gen_arg(rng, member, p_pool=0.05, valid=valid)
     elif name in ("extend", "iadd"):
@@ -699,9 +769,29 @@ def _dedupe(kvs):
     return [kv for kv in kvs if not (kv[0] in seen or seen.add(kv[0]))]
 
 
-def gen_map_op(rng, s, valid=True):
+def decorate_element_arg(rng, a):
+    """variants of a ready-made Element argument of a mapping: an instance of a subclass of the field class
+    (renamed and/or with its own `optional`), or an instance of the field class itself carrying
+    instance-level `optional=` / `name=` keywords"""
+    r = rng.random()
+    if r < 0.08:
+        a["rename"] = rng.choice(["zz", "q"])
+    elif r < 0.14:
+        a["sub_optional"] = rng.random() < 0.7
+    elif r < 0.17:
+        a["rename"] = rng.choice(["zz", "q"])
+        a["sub_optional"] = True
+    elif r < 0.27:
+        a["inst_optional"] = rng.random() < 0.7
+    elif r < 0.33:
+        a["inst_name"] = rng.choice(["zz", "q"])
+    if "rename" in a or "sub_optional" in a:
+        a["cid"] = 100000 + rng.randint(0, 10 ** 6)
+
+
+def gen_map_op(rng, s, valid=True, flat=False):
     fields = s["subs"] if s is not None else []
-    name = rng.choice(MAP_OPS)
+    name = rng.choice(MAP_OPS + (["set_flat", "set_flat"] if flat else []))
     op = {"op": name}
     byname = {f["name"]: f for f in fields}
     if name == "setitem":
@@ -709,9 +799,8 @@ def gen_map_op(rng, s, valid=True):
         op["k"] = k
         f = byname.get(k, fields[0] if fields else None)
         op["a"] = gen_arg(rng, f, p_elem=0.35, p_pool=0.15, valid=valid)
-        if "new" in op["a"] and rng.random() < 0.1:
-            op["a"]["rename"] = rng.choice(["zz", "q"])
-            op["a"]["cid"] = 100000 + rng.randint(0, 10 ** 6)
+        if "new" in op["a"]:
+            decorate_element_arg(rng, op["a"])
     elif name == "update_items":
         # update(dict) / update(**kw) / update(pairs) / |= whose values are ready-made Elements or plain values
         form = rng.choice(["dict", "kw", "pairs", "ior"])
@@ -719,7 +808,10 @@ def gen_map_op(rng, s, valid=True):
         for _ in range(rng.choice([1, 1, 2, 3])):
             k = gen_key(rng, fields, 0.1)
             f = byname.get(k, fields[0] if fields else None)
-            items.append([k, gen_arg(rng, f, p_elem=0.6, p_pool=0.1, valid=valid)])
+            a = gen_arg(rng, f, p_elem=0.6, p_pool=0.1, valid=valid)
+            if "new" in a:
+                decorate_element_arg(rng, a)
+            items.append([k, a])
         if form != "pairs":
             items = _dedupe(items)
         op["form"] = form
@@ -751,6 +843,8 @@ def gen_map_op(rng, s, valid=True):
         for kv in kvs:
             kv[1] = gen_value(rng, byname[kv[0]], valid) if kv[0] in byname else rng.choice(INT_POOL)
         op["v"] = {"d": _dedupe(kvs)} if rng.random() < 0.8 else rng.choice([None, 5, {"p": kvs}])
+    elif name == "set_flat":
+        op["pairs"] = gen_flat_pairs(rng, s) if s is not None else []
     elif name == "setdefault":
         k = gen_key(rng, fields)
         op["k"] = k
@@ -820,3 +914,32 @@ def shrink_history(case):
             c = copy.deepcopy(case)
             list(walk_schemas(c["schema"]))[idx]["default"] = None
             yield c
+
+
+# ------------------------------------------------------------------ which cases does the model cover?
+
+def mark_unmodelled(prop, cases):
+    """Ask the compiled Lean model which of the cases it covers (it answers {"unsupported": true} for paths outside
+    the model) and mark the others `nomodel`, so that `has_model` — and the evidence counters — are exact:
+    only really compared traces count as validated.  The oracle runs on every case regardless."""
+    import os
+    from harness import core
+    todo = [c for c in cases if not c.get("nomodel")]
+    if not todo or not os.path.exists(core.DRIVER):
+        return cases
+    outs = core.run_model_many(prop, todo)
+    for c, o in zip(todo, outs):
+        if isinstance(o, dict) and o.get("unsupported"):
+            c["nomodel"] = True
+            c["why_nomodel"] = "outside the modelled paths"
+    return cases
+
+
+def has_flat(case):
+    if case["init"].get("route") in ("from_flat", "set_flat"):
+        return True
+    for o in case["ops"]:
+        for part in ("s", "m"):
+            if (o.get(part) or {}).get("op") == "set_flat":
+                return True
+    return False
